@@ -88,6 +88,12 @@ def failures(c):
 def run(ctx):
     info, ok = vlib.proof_stage(ctx, PROP_FILE, ["Run/C16.v"])
     cov = dict(info)
+    # obligations: every proved statement of the property file and of the AE development it rests on
+    dev = ["Properties/C16.v"] + ["AE/%s.v" % f for f in ("Basics", "Steps", "Inv", "Proofs", "Conv", "Hist", "Witness")]
+    n_stmts = sum(len(vlib.STMT.findall(open(os.path.join(vlib.COQ, f), encoding="utf-8").read())) for f in dev)
+    cov["obligations"] = n_stmts
+    cov["discharged"] = n_stmts if ok else 0
+    cov["obligation_files"] = dev
     cov["trusted_base"] = vlib.STD_TRUSTED + [
         "the RPC fault oracle is an explicit outcome list (a universally quantified argument of every theorem); Go's map iteration order is an explicit argument as well (universally quantified)",
         "the fake Delegate of harness/ae (fault injection, caller identification by stack inspection, msgpack round trip of the request, the endpoint's Check->Checks flattening) and the projection of structs.NodeService/HealthCheck onto the modelled fields; the catalog side is consul's real agent/consul/state.Store (EnsureRegistration, DeleteService, DeleteCheck, NodeServiceList, NodeChecks)",
@@ -99,12 +105,17 @@ def run(ctx):
         cov.update({"evaluations": 0, "distinct_nontrivial": 0, "rule": "proof stage failed", "samples": []})
         return ctx.finish(cov, assumptions)
 
+    import time
+    t0 = time.time()
+    vlib.log("C16: proof stage done")
     binp = vlib.go_build("ae")
+    vlib.log("C16: harness built in %.0fs" % (time.time() - t0)); t0 = time.time()
     out = os.path.join(ctx.workdir, "cases.jsonl")
     rc, o = vlib.sh([binp, "-seed", str(ctx.seed), "-tier", ctx.tier, "-out", out], timeout=3000)
     if rc != 0:
         raise vlib.BuildError("harness run failed: " + o[-2000:])
 
+    vlib.log("C16: harness ran in %.0fs" % (time.time() - t0)); t0 = time.time()
     total = 0
     kinds = collections.Counter()
     ops = collections.Counter()
@@ -132,9 +143,10 @@ def run(ctx):
             oracle_fail.append(c)
 
     # ---- model vs implementation, inside Coq ----
-    per = 250 if ctx.tier == "quick" else 400
+    per = 200 if ctx.tier == "quick" else 400
     shards = [coq_cases[i:i + per] for i in range(0, len(coq_cases), per)]
-    res = vlib.coq_run_shards(PROP, [shard_text(s) for s in shards], jobs=6)
+    res = vlib.coq_run_shards(PROP, [shard_text(s) for s in shards], jobs=8)
+    vlib.log("C16: %d cases evaluated in Coq in %.0fs" % (len(coq_cases), time.time() - t0))
     mism = []
     for s, (okk, idx, raw) in zip(shards, res):
         if not okk:
